@@ -1,7 +1,7 @@
 (* C02 - Rounding never exceeds eps, never raises a rank, and leaves its operand intact.
    Only theorem statements closed by `exact`, each followed by Print Assumptions. *)
 From Coq Require Import List Arith ZArith.
-From TT Require Import RingSig SumN Mat OrdRing RankChop RankChopP FrobP Sweep SweepP.
+From TT Require Import RingSig SumN Mat Core OrdRing RankChop RankChopP FrobP Sweep SweepP OrthP.
 Import ListNotations.
 
 Section C02.
@@ -72,6 +72,19 @@ Theorem C02_tt_svd_error_bound (leb : R -> R -> bool) {OL : @OrdLaws R (OO_of_ri
   @ole R (OO_of_ring leb) (rmul (@ofnat R (OO_of_ring leb) dm1) (frob2 (sm s0) (sn s0 * sq s0) (msub C (approx ss C))))
       (rmul (@ofnat R (OO_of_ring leb) (length ss)) (rmul eps2 (frob2 (sm s0) (sn s0 * sq s0) C))).
 Proof. exact (tt_svd_error_bound leb dm1 pos eps2 ss qs C s0 st). Qed.
+(* ---- tensor level: why the small matrices of the rounding sweep speak for the whole tensor.  After the left-to-right QR sweep every
+   core but the last has an orthonormal left unfolding; then (a) the squared norm of the tensor is the squared norm of the last core -
+   the first spectrum carries ||x|| - and (b) replacing the last core by ANY other core (its truncated SVD in particular) changes the
+   tensor by exactly the Frobenius distance of the two cores: the discarded energy of the small matrix IS the squared error of the tensor.
+   Any order, mode sizes and ranks; real and complex. ---- *)
+Theorem C02_norm2_last_core (pre : tt R) (c : core3 R) : linked 1 pre -> Forall left_orth pre -> r1 c = 1%nat ->
+  sum_idx (shape (pre ++ (c :: nil))) (fun idx => rmul (entry (pre ++ (c :: nil)) idx) (rconj (entry (pre ++ (c :: nil)) idx)))
+  = sum_n (Core.nn c) (fun i => sum_n (endrank 1 pre) (fun p => rmul (e3 c p i 0%nat) (rconj (e3 c p i 0%nat)))).
+Proof. exact (norm2_last_core pre c). Qed.
+Theorem C02_last_core_error (pre : tt R) (c c' : core3 R) : linked 1 pre -> Forall left_orth pre -> r1 c = 1%nat -> r1 c' = 1%nat -> Core.nn c' = Core.nn c ->
+  sum_idx (shape (pre ++ (c :: nil))) (fun idx => rmul (rsub (entry (pre ++ (c :: nil)) idx) (entry (pre ++ (c' :: nil)) idx)) (rconj (rsub (entry (pre ++ (c :: nil)) idx) (entry (pre ++ (c' :: nil)) idx))))
+  = sum_n (Core.nn c) (fun i => sum_n (endrank 1 pre) (fun p => rmul (rsub (e3 c p i 0%nat) (e3 c' p i 0%nat)) (rconj (rsub (e3 c p i 0%nat) (e3 c' p i 0%nat))))).
+Proof. exact (last_core_error pre c c'). Qed.
 End C02_sweep.
 
 Print Assumptions C02_bond_rank_le.
@@ -83,3 +96,5 @@ Print Assumptions C02_rank_chop_zero.
 Print Assumptions C02_stage_error.
 Print Assumptions C02_sweep_error_eq.
 Print Assumptions C02_tt_svd_error_bound.
+Print Assumptions C02_norm2_last_core.
+Print Assumptions C02_last_core_error.
